@@ -68,4 +68,23 @@ Theorem C10_same_number_of_layer_hashes : forall (H256 : bytes -> bytes) B, 0 < 
 Proof. exact layer_length_all. Qed.
 Print Assumptions C10_same_number_of_layer_hashes.
 
-(* creators-level theorems: to be added from Proofs/CreatorsProofs.v *)
+(* ---------------------------------------------------------------------------------------------- *)
+(* creator level (Model/Creators.v, tied to torrent.py byte for byte by the unit correspondence of        *)
+(* harness/props/creators_common.py): TorrentAssembler -- the creator behind the command line -- writes    *)
+(* the SAME dictionary (info, piece layers and everything else, after sort_meta) as the dedicated class,   *)
+(* for every payload (a [node]: any tree, any enumeration order, the empty directory and the single file   *)
+(* included -- no side condition), every option set o, every name and every piece length pl = B * 2^k.     *)
+(* ---------------------------------------------------------------------------------------------- *)
+From TF Require Import Model.Bencode Model.Creators Proofs.CreatorsProofs.
+
+Theorem C10_v2_creators_agree : forall (H1 H256 : bytes -> bytes) B, 0 < B -> forall k pl, pl = B * 2 ^ k ->
+  forall o name t,
+  create_assembler H1 H256 B false o name pl t = create_v2_class H256 B o name pl t.
+Proof. exact create_assembler_v2_agree. Qed.
+Print Assumptions C10_v2_creators_agree.
+
+Theorem C10_hybrid_creators_agree : forall (H1 H256 : bytes -> bytes) B, 0 < B -> forall k pl, pl = B * 2 ^ k ->
+  forall o name t,
+  create_assembler H1 H256 B true o name pl t = create_hybrid_class H1 H256 B o name pl t.
+Proof. exact create_assembler_hybrid_agree. Qed.
+Print Assumptions C10_hybrid_creators_agree.
